@@ -145,7 +145,11 @@ Inductive prim : st -> st -> Prop :=
     prim s (ev (ERet (next_id s) e) (ev (EWrite2 (next_id s)) (call0 s (EWrite (next_id s) (sumN bufs)))))
 | p_write2_enq s bufs : check_before_write2 s = None ->
     prim s (set_wq (wq s ++ [mkReq (next_id s) (sumN bufs) bufs O 0 0%Z false true])
-              (set_wqs (wqs s + sumN bufs) (ev (EWrite2 (next_id s)) (call0 s (EWrite (next_id s) (sumN bufs)))))).
+              (set_wqs (wqs s + sumN bufs) (ev (EWrite2 (next_id s)) (call0 s (EWrite (next_id s) (sumN bufs))))))
+| p_write_nomem s bufs : check_before_write s = None ->
+    prim s (ev (ERet (next_id s) UV_ENOMEM) (call0 s (EWrite (next_id s) (sumN bufs))))
+| p_write2_nomem s bufs : check_before_write2 s = None ->
+    prim s (ev (ERet (next_id s) UV_ENOMEM) (ev (EWrite2 (next_id s)) (call0 s (EWrite (next_id s) (sumN bufs))))).
 
 Inductive steps : st -> st -> Prop :=
 | st_refl s : steps s s
@@ -281,6 +285,8 @@ Proof.
       constructor; auto. unfold rwf, req_size; simpl. split; lia.
     + apply Forall_app; split; auto.
     + apply Forall_app; auto.
+  - constructor; unfold live; cbn; auto. apply Forall_app3; auto. apply Forall_app; auto.
+  - constructor; unfold live; cbn; auto. apply Forall_app3; auto. apply Forall_app; auto.
 Qed.
 
 (* ------------------------------------------------------------------ *)
@@ -575,12 +581,30 @@ Proof.
   - split. apply steps_one, p_close. unfold aframe; cbn; auto.
 Qed.
 
+Lemma api_write_nomem_sim s bufs :
+  steps s (api_write_nomem s bufs) /\ aframe s (api_write_nomem s bufs).
+Proof.
+  unfold api_write_nomem. destruct (check_before_write s) eqn:Hc; [apply api_write_sim|].
+  destruct (needs_alloc bufs); [|apply api_write_sim].
+  split; [apply steps_one; exact (p_write_nomem s bufs Hc) | unfold aframe; cbn; auto].
+Qed.
+
+Lemma api_write2_nomem_sim s bufs :
+  steps s (api_write2_nomem s bufs) /\ aframe s (api_write2_nomem s bufs).
+Proof.
+  unfold api_write2_nomem. destruct (check_before_write2 s) eqn:Hc; [apply api_write2_sim|].
+  destruct (needs_alloc bufs); [|apply api_write2_sim].
+  split; [apply steps_one; exact (p_write2_nomem s bufs Hc) | unfold aframe; cbn; auto].
+Qed.
+
 Lemma api_sim s o : steps s (api s o) /\ aframe s (api s o).
 Proof.
   destruct o; cbn [api].
   - apply api_write_sim. - apply api_try_sim. - apply api_shutdown_sim. - apply api_close_sim.
   - apply api_write2_sim.
   - split; [apply steps_one, p_silent; sc | unfold aframe; cbn; auto].
+  - apply api_write_nomem_sim.
+  - apply api_write2_nomem_sim.
   - split; [constructor | unfold aframe; auto].
 Qed.
 
@@ -1262,6 +1286,17 @@ Proof.
   - (* write2 enqueued *)
     rewrite !app_assoc. rewrite map_app. simpl. rewrite <- !app_assoc.
     apply I2_neutral; [simpl; auto | simpl; lia |]. apply I2_call_enq; auto.
+  - (* ENOMEM *)
+    pose proof I as [_ B C _ _ _ _ _ _ _ _].
+    apply I2_eret_fail; [unfold UV_ENOMEM; lia | lia | | | apply I2_ewrite; auto].
+    + simpl. intros X. apply (cb_ids_fresh _ _ B) in X. lia.
+    + intros X. apply in_map_iff in X. destruct X as (k & Ek & Hk).
+      rewrite Forall_forall in C. apply C in Hk. lia.
+  - pose proof I as [_ B C _ _ _ _ _ _ _ _].
+    apply I2_eret_fail; [unfold UV_ENOMEM; lia | lia | | | apply I2_neutral; [simpl; auto | simpl; lia | apply I2_ewrite; auto]].
+    + simpl. intros X. apply (cb_ids_fresh _ _ B) in X. lia.
+    + intros X. apply in_map_iff in X. destruct X as (k & Ek & Hk).
+      rewrite Forall_forall in C. apply C in Hk. lia.
 Qed.
 
 Lemma Inv12_steps s s' : steps s s' -> Inv1 s /\ Inv2 s -> Inv1 s' /\ Inv2 s'.
@@ -1563,6 +1598,8 @@ Proof.
   - rewrite map_app. simpl. apply I3_enq.
     + constructor; [simpl; lia|]. constructor; [simpl; lia | apply fresh_bump; auto].
     + apply I3_plain; simpl; auto. apply I3_ewrite; auto. apply I3_bump; auto.
+  - apply I3_plain; simpl; auto. apply I3_ewrite; auto. apply I3_bump; auto.
+  - apply I3_plain; simpl; auto. apply I3_plain; simpl; auto. apply I3_ewrite; auto. apply I3_bump; auto.
 Qed.
 
 Lemma Inv3_init blk o sa pw c ip : Inv3 (init blk o sa pw c ip).
@@ -1896,6 +1933,21 @@ Proof.
     destruct (check2_none _ H) as [_ Hw].
     apply (Inv4_state_w (ev (EWrite2 (next_id s)) (ev (EWrite (next_id s) (sumN bufs)) (set_next_id (S (next_id s)) s)))); auto.
     apply Inv4_inert; simpl; auto. apply Inv4_inert; simpl; auto. apply (Inv4_state s); auto.
+  - (* ENOMEM: the stream is writable, so no shutdown so far *)
+    destruct (check_none _ H) as [_ Hw].
+    apply Inv4_event; [ | simpl; auto | apply Inv4_inert; simpl; auto; apply (Inv4_state s); auto].
+    intros X HX. cbn in HX. destruct HX as [HX|HX]; [subst X; simpl; auto|].
+    hold_cases X z a c.
+    + destruct I as [A _ _ _ _ _]. rewrite (A HX) in Hw. discriminate.
+    + unfold UV_ENOMEM; lia.
+  - destruct (check2_none _ H) as [_ Hw].
+    apply Inv4_event; [ | simpl; auto
+                      | apply Inv4_inert; simpl; auto; apply Inv4_inert; simpl; auto; apply (Inv4_state s); auto].
+    intros X HX. cbn in HX. destruct HX as [HX|HX]; [subst X; simpl; auto|].
+    destruct HX as [HX|HX]; [subst X; simpl; auto|].
+    hold_cases X z a c.
+    + destruct I as [A _ _ _ _ _]. rewrite (A HX) in Hw. discriminate.
+    + unfold UV_ENOMEM; lia.
 Qed.
 
 Lemma Inv4_steps s s' : steps s s' -> Inv4 s -> Inv4 s'.
@@ -2033,10 +2085,9 @@ Proof.
 Qed.
 
 (* API calls *)
-Lemma api_kc_cd s o : KC s (api s o) /\ CD s (api s o).
+Lemma api_write_kc_cd s bufs : KC s (api_write s bufs) /\ CD s (api_write s bufs).
 Proof.
-  destruct o; cbn [api].
-  - unfold api_write.
+  unfold api_write.
     set (s0 := ev (EWrite (next_id s) (sumN bufs)) (set_next_id (S (next_id s)) s)).
     destruct (check_before_write s0); [split; [apply KC_same | unfold CD]; auto|].
     set (s1 := set_wq _ _).
@@ -2044,6 +2095,24 @@ Proof.
     destruct (wqs s0 =? 0); [|split; [apply KC_same | unfold CD]; auto].
     destruct (uv_write_queue_frame s1) as (A & B & C & D).
     split; [apply KC_same; [exact A | exact B] | unfold CD; split; [exact C | exact D]].
+Qed.
+
+Lemma api_write2_kc_cd s bufs : KC s (api_write2 s bufs) /\ CD s (api_write2 s bufs).
+Proof.
+  unfold api_write2.
+    set (s0 := ev (EWrite2 (next_id s)) (ev (EWrite (next_id s) (sumN bufs)) (set_next_id (S (next_id s)) s))).
+    destruct (check_before_write2 s0); [split; [apply KC_same | unfold CD]; auto|].
+    set (s1 := set_wq _ _).
+    destruct (connecting s1); [split; [apply KC_same | unfold CD]; auto|].
+    destruct (wqs s0 =? 0); [|split; [apply KC_same | unfold CD]; auto].
+    destruct (uv_write_queue_frame s1) as (A & B & C & D).
+    split; [apply KC_same; [exact A | exact B] | unfold CD; split; [exact C | exact D]].
+Qed.
+
+Lemma api_kc_cd s o : KC s (api s o) /\ CD s (api s o).
+Proof.
+  destruct o; cbn [api].
+  - apply api_write_kc_cd.
   - unfold api_try.
     set (s0 := ev (ETry (next_id s) (sumN bufs)) (set_next_id (S (next_id s)) s)).
     destruct (connecting s0 || negb (wqs s0 =? 0)); [split; [apply KC_same | unfold CD]; auto|].
@@ -2056,15 +2125,12 @@ Proof.
     cbn. destruct (wq s); (split; [apply KC_same | unfold CD]; auto).
   - unfold api_close. destruct (closing s) eqn:Hc; [split; [apply KC_refl | apply CD_refl]|].
     split; [|unfold CD; auto]. unfold KC, FC; cbn. auto.
-  - unfold api_write2.
-    set (s0 := ev (EWrite2 (next_id s)) (ev (EWrite (next_id s) (sumN bufs)) (set_next_id (S (next_id s)) s))).
-    destruct (check_before_write2 s0); [split; [apply KC_same | unfold CD]; auto|].
-    set (s1 := set_wq _ _).
-    destruct (connecting s1); [split; [apply KC_same | unfold CD]; auto|].
-    destruct (wqs s0 =? 0); [|split; [apply KC_same | unfold CD]; auto].
-    destruct (uv_write_queue_frame s1) as (A & B & C & D).
-    split; [apply KC_same; [exact A | exact B] | unfold CD; split; [exact C | exact D]].
+  - apply api_write2_kc_cd.
   - split; [apply KC_same | unfold CD]; auto.
+  - unfold api_write_nomem. destruct (check_before_write s); [apply api_write_kc_cd|].
+    destruct (needs_alloc bufs); [|apply api_write_kc_cd]. split; [apply KC_same | unfold CD]; auto.
+  - unfold api_write2_nomem. destruct (check_before_write2 s); [apply api_write2_kc_cd|].
+    destruct (needs_alloc bufs); [|apply api_write2_kc_cd]. split; [apply KC_same | unfold CD]; auto.
   - split; [apply KC_refl | apply CD_refl].
 Qed.
 
@@ -2073,10 +2139,9 @@ Lemma Prog_conn_enq s s' :
   derr s' = derr s -> armed s' = armed s -> fed s' = fed s -> Prog s -> Prog s'.
 Proof. unfold Prog, FC, C1. intros Hc -> -> -> -> -> ->. rewrite Hc. auto. Qed.
 
-Lemma api_prog s o : Prog s -> Prog (api s o).
+Lemma api_write_prog s bufs : Prog s -> Prog (api_write s bufs).
 Proof.
-  intros P. destruct o; cbn [api].
-  - unfold api_write.
+  intros P. unfold api_write.
     set (s0 := ev (EWrite (next_id s) (sumN bufs)) (set_next_id (S (next_id s)) s)).
     destruct (check_before_write s0); [apply (Prog_same s); auto|].
     set (s1 := set_wq _ _).
@@ -2091,19 +2156,11 @@ Proof.
     + apply (Prog_same (set_armed true s1)); auto.
       split; [exact F1|]. right. change (connecting (set_armed true s1)) with (connecting s1). rewrite Hc.
       right; left; reflexivity.
-  - unfold api_try.
-    set (s0 := ev (ETry (next_id s) (sumN bufs)) (set_next_id (S (next_id s)) s)).
-    destruct (connecting s0 || negb (wqs s0 =? 0)); [apply (Prog_same s); auto|].
-    destruct (check_before_write s0); [apply (Prog_same s); auto|].
-    destruct (sys_write (oracle s0) (offered bufs)) as [res o']. destruct res; apply (Prog_same s); auto.
-  - unfold api_shutdown.
-    destruct (negb (writable s) || shut s || shutreq s || closing s || closed s); [apply (Prog_same s); auto|].
-    cbn. destruct (wq s) eqn:Hq; [|apply (Prog_same s); auto].
-    destruct P as [F P]. split; [exact F|]. destruct P as [P|P]; [left; exact P | right].
-    cbn. destruct (connecting s); [|auto]. destruct P as [X Y]. split; [exact X | auto].
-  - unfold api_close. destruct (closing s) eqn:Hc; [exact P|].
-    split; [unfold FC; cbn; auto | left; reflexivity].
-  - unfold api_write2.
+Qed.
+
+Lemma api_write2_prog s bufs : Prog s -> Prog (api_write2 s bufs).
+Proof.
+  intros P. unfold api_write2.
     set (s0 := ev (EWrite2 (next_id s)) (ev (EWrite (next_id s) (sumN bufs)) (set_next_id (S (next_id s)) s))).
     destruct (check_before_write2 s0); [apply (Prog_same s); auto|].
     set (s1 := set_wq _ _).
@@ -2118,7 +2175,30 @@ Proof.
     + apply (Prog_same (set_armed true s1)); auto.
       split; [exact F1|]. right. change (connecting (set_armed true s1)) with (connecting s1). rewrite Hc.
       right; left; reflexivity.
+Qed.
+
+Lemma api_prog s o : Prog s -> Prog (api s o).
+Proof.
+  intros P. destruct o; cbn [api].
+  - apply api_write_prog; auto.
+  - unfold api_try.
+    set (s0 := ev (ETry (next_id s) (sumN bufs)) (set_next_id (S (next_id s)) s)).
+    destruct (connecting s0 || negb (wqs s0 =? 0)); [apply (Prog_same s); auto|].
+    destruct (check_before_write s0); [apply (Prog_same s); auto|].
+    destruct (sys_write (oracle s0) (offered bufs)) as [res o']. destruct res; apply (Prog_same s); auto.
+  - unfold api_shutdown.
+    destruct (negb (writable s) || shut s || shutreq s || closing s || closed s); [apply (Prog_same s); auto|].
+    cbn. destruct (wq s) eqn:Hq; [|apply (Prog_same s); auto].
+    destruct P as [F P]. split; [exact F|]. destruct P as [P|P]; [left; exact P | right].
+    cbn. destruct (connecting s); [|auto]. destruct P as [X Y]. split; [exact X | auto].
+  - unfold api_close. destruct (closing s) eqn:Hc; [exact P|].
+    split; [unfold FC; cbn; auto | left; reflexivity].
+  - apply api_write2_prog; auto.
   - apply (Prog_same s); auto.
+  - unfold api_write_nomem. destruct (check_before_write s); [apply api_write_prog; auto|].
+    destruct (needs_alloc bufs); [|apply api_write_prog; auto]. apply (Prog_same s); auto.
+  - unfold api_write2_nomem. destruct (check_before_write2 s); [apply api_write2_prog; auto|].
+    destruct (needs_alloc bufs); [|apply api_write2_prog; auto]. apply (Prog_same s); auto.
   - exact P.
 Qed.
 
@@ -2740,6 +2820,10 @@ Proof.
     + apply I5_mark; auto.
       * apply Hnochunk. intros e0 [<-|He]; [right; simpl; auto | left; exact He].
       * apply I5_boring; simpl; auto.
+  - apply I5_boring; simpl; auto. apply I5_boring; simpl; auto.
+  - apply I5_boring; simpl; auto. apply I5_mark; auto.
+    + apply Hnochunk. intros e0 [<-|He]; [right; simpl; auto | left; exact He].
+    + apply I5_boring; simpl; auto.
 Qed.
 
 Lemma Inv5_init blk o sa pw c ip : Inv5 (init blk o sa pw c ip).
@@ -2799,3 +2883,38 @@ Proof.
     + destruct (Pos.eqb e 4); [eauto|].
       destruct (Pos.eqb e 11 || Pos.eqb e 105); inversion H.
 Qed.
+
+(* ------------------------------------------------------------------ *)
+(* uv_write / uv_write2 failing with UV_ENOMEM change nothing          *)
+(* ------------------------------------------------------------------ *)
+(* every field of the stream except the trace and the call counter *)
+Definition same_stream (s s' : st) : Prop :=
+  wq s' = wq s /\ cq s' = cq s /\ pq s' = pq s /\ wqs s' = wqs s /\ shutreq s' = shutreq s /\
+  writable s' = writable s /\ shut s' = shut s /\ closing s' = closing s /\ closed s' = closed s /\
+  blocking s' = blocking s /\ fdopen s' = fdopen s /\ armed s' = armed s /\ fed s' = fed s /\
+  oracle s' = oracle s /\ shutans s' = shutans s /\ pollw s' = pollw s /\ StreamWrite.cbn s' = StreamWrite.cbn s /\
+  connecting s' = connecting s /\ derr s' = derr s /\ sockerr s' = sockerr s /\ ipc s' = ipc s /\
+  sh_open s' = sh_open s.
+
+Theorem write_enomem_is_noop s bufs :
+  check_before_write s = None -> needs_alloc bufs = true ->
+  same_stream s (api_write_nomem s bufs) /\
+  tr (api_write_nomem s bufs) = ERet (next_id s) UV_ENOMEM :: EWrite (next_id s) (sumN bufs) :: tr s /\
+  next_id (api_write_nomem s bufs) = S (next_id s).
+Proof.
+  intros Hc Ha. unfold api_write_nomem. rewrite Hc, Ha. unfold same_stream. repeat split.
+Qed.
+
+Theorem write2_enomem_is_noop s bufs :
+  check_before_write2 s = None -> needs_alloc bufs = true ->
+  same_stream s (api_write2_nomem s bufs) /\
+  tr (api_write2_nomem s bufs) =
+    ERet (next_id s) UV_ENOMEM :: EWrite2 (next_id s) :: EWrite (next_id s) (sumN bufs) :: tr s /\
+  next_id (api_write2_nomem s bufs) = S (next_id s).
+Proof.
+  intros Hc Ha. unfold api_write2_nomem. rewrite Hc, Ha. unfold same_stream. repeat split.
+Qed.
+
+(* ... and with four buffers or fewer nothing is allocated: the call is an ordinary one *)
+Theorem write_nomem_small s bufs : needs_alloc bufs = false -> api_write_nomem s bufs = api_write s bufs.
+Proof. intros Ha. unfold api_write_nomem. rewrite Ha. destruct (check_before_write s); reflexivity. Qed.
